@@ -534,3 +534,39 @@ def keyval(ctx, prog, rule="R-KEYVAL"):
                        "pointer-identity shortcut): a shorter key that starts at the same address matches a longer stored key")
     ctx.floor(rule, "ObjectData::findKey instantiations", nf, 3)
     ctx.doc(rule, "key lookup alternates key/value slots; a match only under stringEquals")
+
+
+def pool_match(ctx, prog, rule="R-POOLEQ"):
+    """De-duplication is unobservable only if the pool lookup reports a node
+    for strings that are equal, length included: StringPool::get returns a
+    node from inside its scan only on a path where stringEquals(str, stored)
+    held (a pointer-identity shortcut takes a shorter view of a pooled string
+    for the pooled string)."""
+    nf = 0
+    for fn in sorted(prog.q("StringPool::get"), key=lambda f: f.key):
+        if fn.cfg is None:
+            continue
+        nf += 1
+        loops = [i for i in fn.walk() if fn.s(i)["k"] in ("ForStmt", "WhileStmt", "DoStmt", "CXXForRangeStmt")]
+        nret = 0
+        for li in loops[:1]:
+            body = set(fn.walk(fn.s(li).get("body"))) if fn.s(li).get("body") is not None else set()
+            for r in sorted(body):
+                if fn.s(r)["k"] != "ReturnStmt":
+                    continue
+                # `return nullptr` inside the scan reports no match
+                rv = fn.s(r).get("c") or []
+                if rv and fn.s(fn.strip(rv[0], casts=True))["k"] in ("CXXNullPtrLiteralExpr", "GNUNullExpr") or \
+                        (rv and fn.const(rv[0]) == 0):
+                    continue
+                nret += 1
+                g = any(pol and fn.s(fn.strip(c, casts=True))["k"] in P.CALL_KINDS and
+                        fn.s(fn.strip(c, casts=True)).get("callee", {}).get("q", "").endswith("stringEquals") for c, pol in fn.guards_of(r))
+                ctx.ob(rule, "StringPool::get reports a node only when stringEquals holds", g, fn.loc(r),
+                       "" if g else "a pooled node is returned on a path where stringEquals(str, stored string) was not established (e.g. a "
+                       "pointer-identity shortcut): a shorter view that starts at the same address shares the longer stored string")
+        if not loops or not nret:
+            ctx.ob(rule, "StringPool::get scans the pool and reports matches", None, fn.where,
+                   "no scan loop with a match exit found: the lookup changed shape, re-read it")
+    ctx.floor(rule, "StringPool::get instantiations", nf, 3)
+    ctx.doc(rule, pool_match.__doc__.strip().replace("\n", " "))
